@@ -9,6 +9,7 @@ package cmd
 
 import (
 	"context"
+	"crypto/tls"
 	"errors"
 	"fmt"
 	"math"
@@ -293,6 +294,15 @@ func (o *vc20Outcome) vc20ExerciseRateLimit(c *configuration) {
 
 					return nil
 				}
+			}
+
+			// "If true, refuse DNS queries with the ANY type"; otherwise the
+			// first ANY query of a fresh client is a query like any other.
+			anyReq := (&dns.Msg{}).SetQuestion("c20-ratelimit.example.net.", dns.TypeANY)
+			anyDrop, _, anyErr := ratelimit.NewBackoff(rc.toInternal(allowlist)).IsRateLimited(ctx, anyReq, ip)
+			if anyErr != nil || anyDrop != rc.RefuseANY {
+				o.fail("ratelimit %s: refuse_any is %t but the first ANY query of a fresh client: dropped %t, error %v",
+					fam, rc.RefuseANY, anyDrop, anyErr)
 			}
 
 			l := ratelimit.NewBackoff(rc.toInternal(allowlist))
@@ -617,6 +627,14 @@ func (fx *vc20Fixture) vc20Exercise(c *configuration) (o *vc20Outcome) {
 
 	okAccess := o.step("access", func() (err error) { return b.initAccess(ctx) })
 	okBTD := o.step("bindtodevice", func() (err error) { return b.initBindToDevice(ctx) })
+	if okBTD && b.controlConf != nil {
+		nc := c.Network
+		if uint64(b.controlConf.SndBufSize) != nc.SndBufSize.Bytes() || uint64(b.controlConf.RcvBufSize) != nc.RcvBufSize.Bytes() {
+			o.fail("conversion: network.so_sndbuf/so_rcvbuf are configured as %d/%d but the sockets are given %d/%d",
+				nc.SndBufSize.Bytes(), nc.RcvBufSize.Bytes(), b.controlConf.SndBufSize, b.controlConf.RcvBufSize)
+		}
+	}
+
 	okMsgs := o.step("messages", func() (err error) { return b.initMsgConstructor(ctx) })
 	okTLS := o.step("tls-manager", func() (err error) { return b.initTLSManager(ctx) })
 
@@ -764,13 +782,24 @@ func (fx *vc20Fixture) vc20Exercise(c *configuration) (o *vc20Outcome) {
 		return o
 	}
 
-	// The listeners are created with the package's own constructor, but never
-	// started: nothing listens on a socket.
+	// The listeners are created with the package's own constructor.  They are
+	// not started, except the first DNS-over-TLS listener bound to an address:
+	// that one is moved to an ephemeral loopback port and serves real
+	// connections below.
 	var listeners []dnssvc.Listener
+	var dot dnssvc.Listener
 	newListener := func(s *agd.Server, bc dnsserver.ConfigBase, nonDNS http.Handler) (l dnssvc.Listener, err error) {
+		isDoT := s.Protocol == agd.ProtoDoT && dot == nil && len(s.BindData()) > 0 && s.BindData()[0].PrefixAddr == nil
+		if isDoT {
+			bc.Addr = "127.0.0.1:0"
+		}
+
 		l, err = dnssvc.NewListener(s, bc, nonDNS)
 		if l != nil {
 			listeners = append(listeners, l)
+			if isDoT {
+				dot = l
+			}
 		}
 
 		return l, err
@@ -804,10 +833,109 @@ func (fx *vc20Fixture) vc20Exercise(c *configuration) (o *vc20Outcome) {
 	}
 
 	fx.vc20Queries(o, c, handlers, b.serverGroups)
+	if dot != nil {
+		o.vc20RealDoT(c, dot)
+	}
+
 	o.classes = append(o.classes, "exercise-full")
 	o.geo = geo
 
 	return o
+}
+
+// vc20RealDoT starts the real DNS-over-TLS listener on a loopback port and
+// sends two pipelined queries over one TLS connection: the connection limiter,
+// the read, write and idle timeouts, the pipeline limit and the handle timeout
+// are those of the configuration.
+func (o *vc20Outcome) vc20RealDoT(c *configuration, l dnssvc.Listener) {
+	ctx := context.Background()
+	started := o.step("dot-start", func() (err error) { return l.Start(ctx) })
+	if !started {
+		return
+	}
+
+	defer func() {
+		sctx, cancel := context.WithTimeout(ctx, 3*time.Second)
+		defer cancel()
+
+		_ = l.Shutdown(sctx)
+	}()
+
+	const enough = 500 * time.Millisecond
+	dc := c.DNS
+	must := vc20SaneTimeouts(c) && dc.ReadTimeout.Duration >= enough && dc.WriteTimeout.Duration >= enough &&
+		dc.TCPIdleTimeout.Duration >= enough
+
+	addr := l.LocalTCPAddr()
+	if addr == nil {
+		o.fail("the started DNS-over-TLS listener has no local address")
+
+		return
+	}
+
+	start := time.Now()
+	var got int
+	var err error
+	func() {
+		defer func() {
+			if v := recover(); v != nil {
+				err = fmt.Errorf("harness client panicked: %v", v)
+			}
+		}()
+
+		cli := &dns.Client{
+			Net:       "tcp-tls",
+			TLSConfig: &tls.Config{InsecureSkipVerify: true, ServerName: "dns.example.com"},
+			Timeout:   5 * time.Second,
+		}
+
+		var conn *dns.Conn
+		conn, err = cli.Dial(addr.String())
+		if err != nil {
+			return
+		}
+		defer func() { _ = conn.Close() }()
+
+		_ = conn.SetDeadline(time.Now().Add(5 * time.Second))
+		ids := map[uint16]struct{}{}
+		for i, name := range []string{"c20-dot-1.example.net.", "c20-dot-2.example.net."} {
+			req := (&dns.Msg{}).SetQuestion(name, dns.TypeA)
+			req.Id = uint16(0xD070 + i)
+			ids[req.Id] = struct{}{}
+			if err = conn.WriteMsg(req); err != nil {
+				return
+			}
+		}
+
+		for range 2 {
+			var resp *dns.Msg
+			resp, err = conn.ReadMsg()
+			if err != nil {
+				return
+			}
+
+			if _, ok := ids[resp.Id]; !ok || resp.Rcode != dns.RcodeSuccess || len(resp.Answer) == 0 {
+				err = fmt.Errorf("unexpected response: %v", resp)
+
+				return
+			}
+
+			delete(ids, resp.Id)
+			got++
+		}
+	}()
+
+	elapsed := time.Since(start)
+	switch {
+	case err == nil:
+		o.classes = append(o.classes, "dot-real-answered")
+	case vc20IsTimeout(err) || elapsed >= 400*time.Millisecond || !must:
+		// Slow or bounded by a tiny configured timeout: decides nothing.
+		o.timeouts++
+		o.classes = append(o.classes, "dot-real-inconclusive")
+	default:
+		o.fail("real DNS-over-TLS listener on %s: %d of 2 pipelined queries answered, then after %s: %v", addr, got, elapsed, err)
+	}
 }
 
 // vc20Queries serves queries of a fresh IPv4 and a fresh IPv6 client through
